@@ -258,7 +258,7 @@ func rulesC02(c *Ctx) {
 			}
 		}
 		c.Pin("NewResponse sites", n, 1)
-		reqParam := pr.Param("req")
+		reqParam := pr.ParamOfNamed(pJ, "incomingRequest")
 		c.Need(reqParam != nil, "processResult: parameter req")
 		g := pr.Graph()
 		for _, call := range pr.CallsIn(pr.Body, newResp, false) {
@@ -482,13 +482,19 @@ func rulesC02(c *Ctx) {
 		c.Pin("ioConn.Read tracker insertions", n, 1)
 		sp := c.Fn(pM, "streamableServerConn", "servePOST")
 		sg := sp.Graph()
+		// the per-POST set of calls: the map handed to newStream
+		var callsVar types.Object
+		for _, call := range sp.CallsIn(sp.Body, c.FnObj(pM, "streamableServerConn", "newStream"), false) {
+			callsVar = sp.ObjOf(call.Args[1])
+		}
+		c.Need(callsVar != nil, "servePOST: the set of calls passed to newStream")
 		n = 0
 		for _, w := range Writes(sp.Body, false) {
 			m, _, ok := indexOf(w.LHS)
 			if !ok {
 				continue
 			}
-			if o, _ := sp.ObjOf(m).(*types.Var); o != nil && o.Name() == "calls" && !o.IsField() {
+			if o, _ := sp.ObjOf(m).(*types.Var); o != nil && !o.IsField() && o == callsVar {
 				n++
 				c.Check(callGuard(sp, sg.GuardsAt(sg.VertexOf(w.Stmt))), "servePOST:track-calls-only", sp, w.Stmt, "the per-POST call set is filled only under IsCall")
 			}
@@ -571,7 +577,7 @@ func rulesC02(c *Ctx) {
 			var okTarget = -1
 			for _, cvx := range hg.condVertices() {
 				cond := hg.Node(cvx - 1).(ast.Expr)
-				if id, ok := ast.Unparen(cond).(*ast.Ident); ok && id.Name == "ok" {
+				if id, ok := ast.Unparen(cond).(*ast.Ident); ok && sh.ObjOf(id) == typeAssertOKVar(sh, pJ, "Request") {
 					okTarget, _ = hg.BranchTargets(cvx - 1)
 				}
 			}
@@ -656,4 +662,19 @@ func deepC02(c *Ctx) {
 			}
 		}
 	})
+}
+
+// typeAssertOKVar returns the comma-ok variable of `x, ok := v.(*rel.name)` in f's own body.
+func typeAssertOKVar(f *Func, rel, name string) types.Object {
+	var out types.Object
+	inspectNoLit(f.Body, func(n ast.Node) {
+		as, ok := n.(*ast.AssignStmt)
+		if !ok || len(as.Lhs) != 2 || len(as.Rhs) != 1 {
+			return
+		}
+		if ta, ok := ast.Unparen(as.Rhs[0]).(*ast.TypeAssertExpr); ok && ta.Type != nil && isNamedType(f.TypeOf(ta.Type), modPath+"/"+rel, name) {
+			out = f.ObjOf(as.Lhs[1])
+		}
+	})
+	return out
 }
